@@ -32,7 +32,7 @@ func init() {
 		Rule:           "runs = one server state (report sets at window edges incl. banned slots, 0-6 authorized servers with location lengths 0-255 and ban flags, with/without a migration order with 0-4 new servers, after 0-2 rotations) x one genuine sync (independent decoder == server snapshot == client parser) x 40 (quick) / all-bit (thorough) tamperings: single-bit flips (all of prefix, timestamp, signature; sampled elsewhere), truncation at field boundaries, extension, rewritten length prefix, re-signing under every other key, timestamp shifts to +-86400/+-86401 s, reply bound to another device, server entries / migration orders with missing or foreign GCA signatures; every tampered reply must be rejected with client state and files unchanged; non-trivial = at least 5 tampering kinds were applied to a reply carrying servers or a migration; distinct = distinct decision signatures",
 		Real:           []string{"server sync handler (reply construction and signing)", "client staticServerSync (request, reply parser, freshness, signature, key binding, migration and per-server GCA signatures)"},
 		Stub:           []string{"TCP (simulated connection; the fabric records and tampers)"},
-		RequiredProbes: []string{"c10.genuine", "c10.genuine.migration", "c10.genuine.servers", "c10.refusal", "c10.tamper.bitflip", "c10.tamper.resign", "c10.tamper.time-accept", "c10.tamper.time-reject", "c10.tamper.foreign-server-sig", "c10.tamper.bad-migration", "c10.tamper.other-device", "c10.tamper.prefix", "c10.tamper.dup-key", "c10.tamper.whole-round"},
+		RequiredProbes: []string{"c10.genuine", "c10.genuine.migration", "c10.genuine.servers", "c10.refusal", "c10.tamper.bitflip", "c10.tamper.resign", "c10.tamper.time-accept", "c10.tamper.time-reject", "c10.tamper.foreign-server-sig", "c10.tamper.bad-migration", "c10.tamper.other-device", "c10.tamper.prefix", "c10.tamper.dup-key", "c10.tamper.whole-round", "c10.second-sync.after-ban"},
 	})
 }
 
@@ -147,55 +147,82 @@ func runC10(m *Sim) {
 		}
 		return p
 	}
-	before := c10Take(cl)
-	g := call()
-	if g.err != nil {
-		m.Fail("C10.parse", "genuine", "the client rejects the genuine reply of its server: %v", g.err)
-	}
-	m.Probe("c10.genuine")
-	snap := n.Snap()
-	rep, err := DecodeSyncReply(wire)
-	if err != nil || rep.Refused {
-		m.Fail("C10.decode", "layout", "the recorded reply does not follow the documented layout: %v", err)
-	}
-	if !VerifySig(n.Key.Pub, rep.Signed, rep.Sig) {
-		m.Fail("C10.decode", "signature", "the reply's signature does not verify under the server key")
-	}
-	if rep.Key != dev.Key.Pub || rep.Offset != snap.Offset {
-		m.Fail("C10.decode", "header", "reply carries key %s offset %d, server has %s offset %d", RoleOf(rep.Key), rep.Offset, RoleOf(dev.Key.Pub), snap.Offset)
-	}
-	have := map[uint32]bool{}
-	for _, s := range snap.Reports[dev.ID] {
-		have[s.Index] = true
-	}
-	for i := 0; i < 4032; i++ {
-		if rep.Bits[i] != have[uint32(i)] {
-			m.Fail("C10.decode", "bitfield", "bit %d is %v, the server holds a record for timeslot %d: %v", i, rep.Bits[i], snap.Offset+uint32(i), have[uint32(i)])
+	var before c10State
+	var rep *SyncReply
+	// genuineCheck performs one genuine exchange and compares the three views:
+	// independent decoder == server snapshot == client parser.
+	genuineCheck := func(site string) {
+		wire = nil
+		before = c10Take(cl)
+		g := call()
+		if g.err != nil {
+			m.Fail("C10.parse", site, "the client rejects the genuine reply of its server: %v", g.err)
 		}
-		cbit := g.bits[i/8]&(1<<uint(i%8)) != 0
-		if cbit != rep.Bits[i] {
-			m.Fail("C10.parse", "bitfield", "the client parsed bit %d as %v, the reply carries %v", i, cbit, rep.Bits[i])
+		m.Probe("c10.genuine")
+		snap := n.Snap()
+		var err error
+		rep, err = DecodeSyncReply(wire)
+		if err != nil || rep.Refused {
+			m.Fail("C10.decode", "layout", "the recorded reply does not follow the documented layout: %v", err)
+		}
+		if !VerifySig(n.Key.Pub, rep.Signed, rep.Sig) {
+			m.Fail("C10.decode", "signature", "the reply's signature does not verify under the server key")
+		}
+		if rep.Key != dev.Key.Pub || rep.Offset != snap.Offset {
+			m.Fail("C10.decode", "header", "reply carries key %s offset %d, server has %s offset %d", RoleOf(rep.Key), rep.Offset, RoleOf(dev.Key.Pub), snap.Offset)
+		}
+		have := map[uint32]bool{}
+		for _, s := range snap.Reports[dev.ID] {
+			have[s.Index] = true
+		}
+		for i := 0; i < 4032; i++ {
+			if rep.Bits[i] != have[uint32(i)] {
+				m.Fail("C10.decode", "bitfield", "bit %d is %v, the server holds a record for timeslot %d: %v", i, rep.Bits[i], snap.Offset+uint32(i), have[uint32(i)])
+			}
+			cbit := g.bits[i/8]&(1<<uint(i%8)) != 0
+			if cbit != rep.Bits[i] {
+				m.Fail("C10.parse", "bitfield", "the client parsed bit %d as %v, the reply carries %v", i, cbit, rep.Bits[i])
+			}
+		}
+		mig, hasMig := snap.Migrations[dev.Key.Pub]
+		if hasMig {
+			if rep.NewGCA != mig.NewGCA || rep.NewShortID != mig.NewShortID || !reflect.DeepEqual(rep.Servers, mig.NewServers) && !(len(rep.Servers) == 0 && len(mig.NewServers) == 0) || rep.GCASig != mig.Signature {
+				m.Fail("C10.decode", "migration", "reply does not carry the stored migration order")
+			}
+		} else {
+			if rep.NewGCA != (glow.PublicKey{}) || !reflect.DeepEqual(rep.Servers, snap.Servers) && !(len(rep.Servers) == 0 && len(snap.Servers) == 0) {
+				m.Fail("C10.decode", "servers", "reply carries %d servers, the server's list has %d (or they differ)", len(rep.Servers), len(snap.Servers))
+			}
+		}
+		if g.off != rep.Offset || g.newGCA != rep.NewGCA || g.newID != rep.NewShortID || !reflect.DeepEqual(g.servers, rep.Servers) && !(len(g.servers) == 0 && len(rep.Servers) == 0) {
+			m.Fail("C10.parse", "fields", "the client's parse (offset %d, new GCA %s, id %d, %d servers) differs from the reply (offset %d, new GCA %s, id %d, %d servers)", g.off, RoleOf(g.newGCA), g.newID, len(g.servers), rep.Offset, RoleOf(rep.NewGCA), rep.NewShortID, len(rep.Servers))
+		}
+		if rep.Time != uint64(time.Now().Unix()) {
+			m.Fail("C10.decode", "time", "reply timestamp %d is not the server's clock %d", rep.Time, time.Now().Unix())
+		}
+		if after := c10Take(cl); !reflect.DeepEqual(before, after) {
+			m.Fail("C10.state", "genuine-parse", "parsing a reply (without merging it) changed the client's state or files")
 		}
 	}
-	mig, hasMig := snap.Migrations[dev.Key.Pub]
-	if hasMig {
-		if rep.NewGCA != mig.NewGCA || rep.NewShortID != mig.NewShortID || !reflect.DeepEqual(rep.Servers, mig.NewServers) && !(len(rep.Servers) == 0 && len(mig.NewServers) == 0) || rep.GCASig != mig.Signature {
-			m.Fail("C10.decode", "migration", "reply does not carry the stored migration order")
+	genuineCheck("genuine")
+	// The server's data changes - a listed server is banned (its entry is
+	// replaced in place), a report arrives, a server is added - and the next
+	// reply must be the new data, not what an earlier reply carried.
+	for k, changes := 0, m.C.Int("changes-before-second-sync", 4); k < changes; k++ {
+		switch m.C.Int("change", 3) {
+		case 0:
+			if list := n.Model.Servers; len(list) > 0 {
+				e := list[m.C.Int("ban-which", len(list))]
+				n.DoAuthorizeServer(SignServer(gca, server.AuthorizedServer{PublicKey: e.PublicKey, Banned: true, Location: e.Location, HttpPort: e.HttpPort, TcpPort: e.TcpPort, UdpPort: e.UdpPort}))
+				m.Probe("c10.second-sync.after-ban")
+			}
+		case 1:
+			n.DoDatagram(SignedReport(dev.Key, dev.ID, Slot()-uint32(m.C.Int("back", 5)), 777).Encode())
+		case 2:
+			n.DoAuthorizeServer(SignServer(gca, server.AuthorizedServer{PublicKey: Key(fmt.Sprintf("late-as%d", k)).Pub, Location: "late.sim", HttpPort: 9, TcpPort: 9, UdpPort: 9}))
 		}
-	} else {
-		if rep.NewGCA != (glow.PublicKey{}) || !reflect.DeepEqual(rep.Servers, snap.Servers) && !(len(rep.Servers) == 0 && len(snap.Servers) == 0) {
-			m.Fail("C10.decode", "servers", "reply carries %d servers, the server's list has %d (or they differ)", len(rep.Servers), len(snap.Servers))
-		}
 	}
-	if g.off != rep.Offset || g.newGCA != rep.NewGCA || g.newID != rep.NewShortID || !reflect.DeepEqual(g.servers, rep.Servers) && !(len(g.servers) == 0 && len(rep.Servers) == 0) {
-		m.Fail("C10.parse", "fields", "the client's parse (offset %d, new GCA %s, id %d, %d servers) differs from the reply (offset %d, new GCA %s, id %d, %d servers)", g.off, RoleOf(g.newGCA), g.newID, len(g.servers), rep.Offset, RoleOf(rep.NewGCA), rep.NewShortID, len(rep.Servers))
-	}
-	if rep.Time != uint64(time.Now().Unix()) {
-		m.Fail("C10.decode", "time", "reply timestamp %d is not the server's clock %d", rep.Time, time.Now().Unix())
-	}
-	if after := c10Take(cl); !reflect.DeepEqual(before, after) {
-		m.Fail("C10.state", "genuine-parse", "parsing a reply (without merging it) changed the client's state or files")
-	}
+	genuineCheck("genuine-after-change")
 	// Unknown id: the one-byte refusal.
 	var req [4]byte
 	binary.LittleEndian.PutUint32(req[:], 4242)
@@ -453,7 +480,7 @@ func runC10(m *Sim) {
 			expectReject("random", "random-bytes", b)
 		}
 	}
-	if len(kinds) >= 5 && (nsrv > 0 || hasMig) {
+	if len(kinds) >= 5 && (nsrv > 0 || rep.NewGCA != (glow.PublicKey{})) {
 		m.Probe("nontrivial")
 	}
 }
